@@ -516,10 +516,17 @@ impl<'a> Run<'a> {
     /// Let everything run until the whole process is idle (paused clock: the 1 ns sleep fires
     /// exactly then), polling the serve future from this task.
     async fn settle(&mut self) {
+        // a process that never becomes idle (e.g. a serve loop spinning on the same receive error) would keep the
+        // paused clock from advancing for ever: give up after 20 s of real time and report it
+        let started = std::time::Instant::now();
         loop {
             let sleep = tokio::time::sleep(Duration::from_nanos(1));
             tokio::pin!(sleep);
             let done = std::future::poll_fn(|cx| {
+                if started.elapsed() > Duration::from_secs(20) {
+                    log("ev livelock".to_string());
+                    return Poll::Ready(true);
+                }
                 if let Some(f) = self.serve.as_mut() {
                     if let Poll::Ready(r) = f.as_mut().poll(cx) {
                         self.serve_res = Some(r);
